@@ -24,6 +24,7 @@ TRACE_CFG = os.path.join(SPEC, "BanksTrace.cfg")
 # witness invariants that must be VIOLATED (the situation occurs in the explored space), per small profile
 VAC_LAYOUT = ["NoSuccess", "NoOverlapWin", "NoPrepend", "NoPadding", "NoOversize", "NoShort", "NoWriteOff"]
 VAC_ASSIGN = ["NoTwoFiles", "NoSharedFile", "NoUnknownBank", "NoNoBank", "NoPrgMulti", "NoHeader", "Strict"]
+VAC_EDGE = ["NoSizeRange", "NoUndefSeg", "NoZeroSize", "NoRangeErr"]
 ALL_DEVS = ["SingleSegmentBankOverridden", "PrgHeaderInSeparateFile"]
 
 
@@ -38,7 +39,7 @@ def mc_cfg_text(profile, mb, ms, devs, base, starts, lens, sizes, invs, export):
 def design_level(rep, tier, open_devs):
     """Model-check the pipeline on both families, ideal and as-is; export the configurations as cases."""
     wd = V.workdir("C09")
-    runs = [("layout", "MC_Banks_layout_%s.cfg" % tier, True), ("range", "MC_Banks_range.cfg", True),
+    runs = [("layout", "MC_Banks_layout_%s.cfg" % tier, True), ("range", "MC_Banks_range.cfg", True), ("sizes", "MC_Banks_sizes.cfg", True),
             ("assign-ideal", "MC_Banks_assign_ideal_%s.cfg" % tier, False)]
     if tier == "thorough":
         runs.append(("layout4", "MC_Banks_layout4_thorough.cfg", True))
@@ -75,14 +76,16 @@ def design_level(rep, tier, open_devs):
             if not exported[name]:
                 raise V.ToolError("MC_Banks %s exported no cases" % name)
     # vacuity: every situation the property talks about occurs in the explored space
-    vac = [("layout", i) for i in VAC_LAYOUT] + [("assign", i) for i in VAC_ASSIGN if not (i == "Strict" and not open_devs)]
+    vac = [("layout", i) for i in VAC_LAYOUT] + [("assign", i) for i in VAC_ASSIGN if not (i == "Strict" and not open_devs)] + [("edge", i) for i in VAC_EDGE]
 
     def witness(pi):
         prof, inv = pi
         path = os.path.join(wd, "vac-%s-%s.cfg" % (prof, inv))
         with open(path, "w") as f:
             if prof == "layout":
-                f.write(mc_cfg_text("layout", 1, 2, [], 4096, ["0", "2", "4", "prev"], [1, 3], [0, 5], [inv], False))
+                f.write(mc_cfg_text("layout", 1, 2, [], 4096, ["0", "2", "4", "prev"], [1, 3], [99999, 5], [inv], False))
+            elif prof == "edge":   # at the top of the address space, with sizes on both sides of 0..65536
+                f.write(mc_cfg_text("layout", 1, 2, [], 65530, ["0", "5", "7", "prev"], [1, 3], [88888, 0, 65537], [inv], False))
             else:
                 f.write(mc_cfg_text("assign", 2, 2, open_devs, 4096, [], [], [], [inv], False))
         r = V.tlc(MC, cfg=path, workers=2, timeout=600, tag="C09-vac-%s-%s" % (prof, inv))
@@ -184,7 +187,7 @@ def main(tier):
         return n
 
     # (a) TLC's configurations, each moved to a seeded base address and given layout-irrelevant options
-    take = {"layout": 2500 if quick else 60000, "layout4": 0 if quick else 30000, "range": 700 if quick else 5160, "assign-impl": 2500 if quick else 40000}
+    take = {"layout": 2500 if quick else 60000, "layout4": 0 if quick else 30000, "range": 700 if quick else 5160, "sizes": 400 if quick else 10000, "assign-impl": 2500 if quick else 40000}
     for name, cases in exported.items():
         cases = list(cases)
         rnd.shuffle(cases)
@@ -195,13 +198,15 @@ def main(tier):
     # (b) seeded random configurations beyond the model's bounds: <= 4 banks, <= 6 segments, forward start dependencies, interleaved definitions
     for i in range(5000 if quick else 40000):
         add(B.decorate(B.random_cfg(rnd, faults=(i % 4 == 0)), rnd), "random")
+    # (c) corners of the size rule and a bank that fills the whole address space (always also through `mos build`)
+    ids_edge = [add(c, "edge") for c in B.edge_cfgs(rnd)]
     # process level: every format x filename combination lives in the assign family and the random family
     ids_assign = [i for i in cfgs if fam[i] == "assign-impl"]
     ids_random = [i for i in cfgs if fam[i] == "random"]
     ids_layout = [i for i in cfgs if fam[i] in ("layout", "range")]
     rnd.shuffle(ids_assign)
     rnd.shuffle(ids_layout)
-    nproc = set(ids_assign[:200 if quick else 1200] + ids_random[:250 if quick else 1500] + ids_layout[:50 if quick else 400])
+    nproc = set(ids_assign[:200 if quick else 1200] + ids_random[:250 if quick else 1500] + ids_layout[:50 if quick else 400] + ids_edge)
 
     V.log("[C09] %d configurations in-process, %d of them also through `mos build`" % (len(cfgs), len(nproc)))
     recs, meta = drive(rep, tier, cfgs, nproc, devs)
